@@ -249,7 +249,7 @@ class C15(Cfg):
 
     def streams(self, tier, seed, work, dv):
         res = []
-        plan = [("dm", 1000, 1), ("db", 40, 3)] if tier == "quick" else [("dm", 30000, 1), ("db", 150, 10)]
+        plan = [("dm", 1000, 1), ("db", 40, 3)] if tier == "quick" else [("dm", 25000, 1), ("db", 120, 10)]
         for kind, n, parts in plan:
             for p in range(parts):
                 path = os.path.join(work, "%s_%d.ops" % (kind, p))
